@@ -3,6 +3,7 @@
     instance stopped after a random Commit and reopened from its database, and on an instance
     with CheckTx / Simulate / Query traffic interleaved; every consensus-relevant response
     (codes, data, events, validator updates) and every app hash must equal instance A's;
+    and two fresh instances initialised from the history's exported genesis must commit the same hash;
 (2) engine `ms`: an uninterrupted twin multistore fed the same writes commits the same hashes.
 The theorems (coq/Props/C01.v) cover the one nondeterminism source inside the modelled code:
 Go's map iteration order over the substores."""
@@ -36,6 +37,8 @@ def run(a):
         v.violation({"engine": "app", "kind": "instances-diverged", "variant": variant},
                     "instance `%s` of history %s differs from the reference instance: %s" % (variant, hid, rest[:300]),
                     {"history": (h["header"] + [o[0] for o in h["ops"]] + ["E"]) if h else [], "variant": variant, "difference": rest})
+    import xicheck
+    xicheck.run("C01", v, out, list(hists.values()), cov)
     if len(samples) < 2 and hists:
         h = hists[sorted(hists)[0]]
         samples.append({"history": h["header"][:3] + [o[0][:160] for o in h["ops"][:10]], "variants": ["fresh", "restart", "interleaved", "consensus-params-restart"]})
